@@ -200,8 +200,38 @@ fn pcase(max_nodes: usize) -> impl Strategy<Value = PCase> {
         any::<[bool; 4]>(),
         phys_query(),
         prop_oneof![Just(Lang::Gql), Just(Lang::Cypher)],
+        0u8..10,
     )
-        .prop_map(|(graph, after_index, index_last, indexed, query, lang)| PCase { graph, after_index, index_last, indexed, query, lang })
+        .prop_map(|(graph, after_index, index_last, indexed, query, lang, shape)| {
+            // one case in five: a key column starts as explicit NULL placeholders on every node that has it and is
+            // filled with the real values by the mutation batch (no removal touches that column, so the column's
+            // min/max / null summary stays live): "placeholder first, value later" histories
+            let (graph, after_index) = if shape < 2 { null_placeholders(graph, after_index, shape) } else { (graph, after_index) };
+            PCase { graph, after_index, index_last, indexed, query, lang }
+        })
+}
+
+/// Rewrites (graph, batch) so that node key `k` is NULL in the initial graph and set to its value by the batch.
+fn null_placeholders(mut graph: GraphSpec, batch: Vec<Mutation>, k: u8) -> (GraphSpec, Vec<Mutation>) {
+    let n = graph.nodes.len();
+    let mut sets = Vec::new();
+    for (j, node) in graph.nodes.iter_mut().enumerate() {
+        for (key, val) in node.props.iter_mut() {
+            if *key == k && *val != qgen::PVal::Null {
+                // inverse of driver::pick: a selector that maps to node j of n
+                let sel = (((j as u64) * 65536 + n as u64 - 1) / n as u64).min(65535) as u16;
+                sets.push(Mutation::SetProp(sel, k, val.clone()));
+                *val = qgen::PVal::Null;
+            }
+        }
+    }
+    // the node list must stay as loaded (selectors above), and nothing may remove from column k
+    let mut out: Vec<Mutation> = batch
+        .into_iter()
+        .filter(|m| !matches!(m, Mutation::AddNode(_) | Mutation::DelNode(_)) && !matches!(m, Mutation::RemProp(_, key) if *key == k))
+        .collect();
+    out.extend(sets);
+    (graph, out)
 }
 
 type Outcome = Result<Rows, String>;
